@@ -1132,8 +1132,27 @@ func revocationRandomizersRule(P *Program, R *Report) {
 		`"epsilon"`: tmul(nDiv4, twoZk), `"zeta"`: tmul(nDiv4, twoZk),
 	}
 	gens := map[*ssa.Call]string{}
+	// (a map written as a literal is filled before it is stored into the commit's field: its entries are that field's)
+	fieldOfMap := func(s sinkInfo) string {
+		mu, ok := s.ins.(*ssa.MapUpdate)
+		if !ok {
+			return s.target
+		}
+		mk, ok := mu.Map.(*ssa.MakeMap)
+		if !ok {
+			return s.target
+		}
+		for _, r := range referrersOf(mk) {
+			if st, isSt := r.(*ssa.Store); isSt && st.Val == ssa.Value(mk) {
+				if _, isFA := st.Addr.(*ssa.FieldAddr); isFA {
+					return desc(st.Addr)
+				}
+			}
+		}
+		return s.target
+	}
 	for _, s := range sinksOf(fn) {
-		if !strings.HasSuffix(s.target, ".randomizers") || s.key == "" {
+		if !strings.HasSuffix(fieldOfMap(s), ".randomizers") || s.key == "" {
 			continue
 		}
 		c := key + ":randomizers[" + s.key + "]"
@@ -1163,7 +1182,7 @@ func revocationRandomizersRule(P *Program, R *Report) {
 	// r2, r3: secrets epsilon/zeta are distinct FastRandomBigInt(N/4)
 	r := map[string]*ssa.Call{}
 	for _, s := range sinksOf(fn) {
-		if strings.HasSuffix(s.target, ".secrets") && (s.key == `"epsilon"` || s.key == `"zeta"`) {
+		if strings.HasSuffix(fieldOfMap(s), ".secrets") && (s.key == `"epsilon"` || s.key == `"zeta"`) {
 			g := genCallOf(s.val)
 			ok := g != nil && calleeIs(g, "common.FastRandomBigInt")
 			if ok {
